@@ -817,19 +817,25 @@ func runC13(r *Run) {
 	for _, b := range batches {
 		c13Merge(r, b, timeout)
 	}
+	c13DefaultCheck(r)
 	r.Dist["configurations"] = len(chosen)
 	r.Dist["call_sequences"] = len(seqs)
 	r.Exhaust = r.Thorough()
 	r.Extra["exhaustive_space"] = fmt.Sprintf("%d configurations x %d logger levels x %d call sequences (length 1..3 over %d severity classes, plus a recovery probe) x every fail/succeed assignment to the first %d Write attempts (then all succeed) + the schedule on which every attempt fails",
 		len(chosen), len(c13Levels), len(seqs), len(c13Sevs), k)
 	r.Extra["correspondence_sample_per_mille"] = perM
-	r.Rule = "writer sets with 1-3 normal, 1-3 error, 0/1/3 writers for a leveled severity and 0/1/2 for Warn itself (81 configurations; quick: 27 of them) x logger level in {Error, Warn, Info, Always, Off} (in every other batch the writers added after the first of the normal / error class are handed over as ONE slog.LWs group, the destinations and their order being the same) x every sequence of 1-3 calls over {Info, Error, Warn, leveled OK, registered error-device level 13} followed by a recovery probe x ALL assignments of fail/succeed to the first K Write attempts (K=5 quick, 8 thorough; enumerated depth-first over the attempts that occur, later attempts succeed) plus the every-attempt-fails schedule; a failing Write returns (0, err), (n/2, io.ErrShortWrite), (n/2, err) or an error of an uncomparable type, rotating or one kind for the whole run; each batch in a child process (stack limit, timeout, per-call attempt bound); the direct oracle runs on every schedule, a pseudo-random share of the (configuration, level, sequence) groups goes to the Coq model with all their schedules; non-trivial = at least one Write failed; distinct by construction (configuration, level, severities, schedule are enumerated without repetition)"
+	r.Rule = "writer sets with 1-3 normal, 1-3 error, 0/1/3 writers for a leveled severity and 0/1/2 for Warn itself (81 configurations; quick: 27 of them) x logger level in {Error, Warn, Info, Always, Off} (in every other batch the writers added after the first of the normal / error class are handed over as ONE slog.LWs group, the destinations and their order being the same) x every sequence of 1-3 calls over {Info, Error, Warn, leveled OK, registered error-device level 13} followed by a recovery probe x ALL assignments of fail/succeed to the first K Write attempts (K=5 quick, 8 thorough; enumerated depth-first over the attempts that occur, later attempts succeed) plus the every-attempt-fails schedule; a failing Write returns (0, err), (n/2, io.ErrShortWrite), (n/2, err) or an error of an uncomparable type, rotating or one kind for the whole run; each batch in a child process (stack limit, timeout, per-call attempt bound); the direct oracle runs on every schedule, a pseudo-random share of the (configuration, level, sequence) groups goes to the Coq model with all their schedules; non-trivial = at least one Write failed; plus one process whose standard output is closed and that logs through loggers WITHOUT writers of their own (New, a child, WithAttrs, the package-level functions; three formats): every call returns, at most one diagnostic, records for standard error delivered once; distinct by construction (configuration, level, severities, schedule are enumerated without repetition)"
 }
 
 func replayC13(r *Run, file string) {
 	var g c13Group
 	loadReplay(file, &g)
 	r.Coq(c13Header, "case", "ok")
+	if len(g.Ops) == 0 && len(g.Calls) == 0 { // a finding of the default-destination process (c13_default.go): run it again
+		c13DefaultCheck(r)
+		finishReplay(r)
+		return
+	}
 	job := c13Job{Explicit: []c13Group{g}, Ops: g.Ops, Level: g.Level, Nested: g.Nested}
 	b := &c13Batch{job: job}
 	b.out, b.err, b.log = c13Spawn(job, 120*time.Second)
